@@ -356,6 +356,11 @@ class STensor:
         if len(shape) == len(src) and all(same_dim(a, b) is True for a, b in zip(shape, src)):
             return self
         minus = [i for i, d in enumerate(shape) if isinstance(d, int) and d == -1]
+        # empty -> empty
+        if any(isinstance(d, int) and d == 0 for d in src) and any(
+            isinstance(d, int) and d == 0 for d in shape
+        ):
+            return STensor(shape, _raise_empty, self.kind)
         # drop / add unit axes only
         def core_dims(sh):
             return [d for d in sh if not (isinstance(d, int) and d == 1)]
@@ -603,10 +608,27 @@ class SSeq:
 
 
 class SIdx(SSeq):
-    """Symbolic sequence of raw ints (index list), e.g. addend_idxs."""
+    """Symbolic sequence of raw ints (index list), e.g. addend_idxs.  `.at` is raw
+    (engine side); iteration / subscripting hand out wrapped SInt values (user side)."""
 
     def as_tensor(self):
         return STensor((self.n,), lambda k: self._at(k), "i")
+
+    def __getitem__(self, k):
+        return sint(SSeq.__getitem__(self, k))
+
+    def __iter__(self):
+        if isinstance(self.n, int):
+            return iter([sint(self._at(i)) for i in range(self.n)])
+        raise OutOfReach("python iteration over symbolic index list %s" % self.label)
+
+    @property
+    def shape(self):
+        return (sint(self.n),)
+
+    @property
+    def size(self):
+        return sint(self.n)
 
 
 class SFamily(SSeq):
